@@ -36,6 +36,10 @@ Proof. intros; eapply den_neg; eauto. Qed.
 Theorem C08_mul : forall c K i, den (k_scale vmul c K) i = vmul c (den K i).
 Proof. intros; eapply den_scale; eauto. Qed.
 
+(* vector round trip, exactly (list equality): from_vector(tovec(K), shape, contains_weights=True) = K *)
+Theorem C08_vec_roundtrip : forall K, wf_k K -> k_from_vector v0 v1 (k_tovec v0 true K) (kshape K) true = K.
+Proof. intros; eapply from_vector_tovec; eauto. Qed.
+
 (* fixsigns(): same array, and an even number of factors is negated in every component (any sign oracle) *)
 Theorem C08_invariant_fixsigns : forall (negcol : list V -> bool) K i,
   den (k_fixsigns v0 v1 vmul vopp negcol K) i = den K i.
@@ -97,6 +101,7 @@ Print Assumptions C08_add.
 Print Assumptions C08_sub.
 Print Assumptions C08_neg.
 Print Assumptions C08_mul.
+Print Assumptions C08_vec_roundtrip.
 Print Assumptions C08_invariant_fixsigns.
 Print Assumptions C08_sign_parity.
 Print Assumptions C08_sign_parity_other.
@@ -106,3 +111,17 @@ Print Assumptions C08_invariant_normalize.
 Print Assumptions C08_invariant_arrange.
 Print Assumptions C08_invariant_fixsigns_other.
 Print Assumptions C08_normal_form_nonneg.
+
+(* non-vacuity: concrete non-symmetric instances over Z *)
+Example C08_example_roundtrip :
+  let K := mkK [2; -3]%Z [[[1; 2]; [3; 4]; [5; 6]]; [[7; 8]; [9; 10]]]%Z in
+  k_tovec 0%Z true K = [2; -3; 1; 3; 5; 2; 4; 6; 7; 9; 8; 10]%Z /\
+  k_from_vector 0%Z 1%Z (k_tovec 0%Z true K) [3; 2] true = K.
+Proof. split; reflexivity. Qed.
+Example C08_example_redistribute_extract :
+  let K := mkK [2; -3]%Z [[[1; 2]; [3; 4]]; [[5; 6]; [7; 8]]]%Z in
+  k_redistribute 1%Z Z.mul 1 K = mkK [1; 1]%Z [[[1; 2]; [3; 4]]; [[10; -18]; [14; -24]]]%Z /\
+  den_k 0%Z 1%Z Z.add Z.mul K [1; 0] = (-42)%Z /\
+  den_k 0%Z 1%Z Z.add Z.mul (k_redistribute 1%Z Z.mul 1 K) [1; 0] = (-42)%Z /\
+  k_extract 0%Z [1] K = mkK [-3]%Z [[[2]; [4]]; [[6]; [8]]]%Z.
+Proof. repeat split; reflexivity. Qed.
